@@ -357,6 +357,12 @@ func (r *runner) run(steps []step, skip func(s step) bool, stopAfter int) (out o
 					break
 				}
 			} else if tree.NFiles != s.Nf {
+				if s.Op == "gc" && len(s.Dev) == 0 {
+					// C18: a collection removes exactly the versions that have a successor not newer than the horizon
+					// (the oldest open transaction's begin, or now): one content file per version it must keep
+					out.mm = &mismatch{Step: i, Kind: "collect", Detail: fmt.Sprintf("after gc: %d content files on disk, the collect rule leaves %d", tree.NFiles, s.Nf)}
+					break
+				}
 				out.drift++
 			}
 		}
@@ -398,6 +404,9 @@ func owner(steps []step, mm *mismatch) string {
 			return "C14"
 		}
 		return "C17"
+	}
+	if mm.Kind == "collect" {
+		return "C18"
 	}
 	if mm.Kind == "reader" {
 		// what came between opening and finishing decides: the collector (C09), the end of a transaction (C03), else C01
@@ -463,6 +472,10 @@ func (r *runner) judge(id int, steps []step) result {
 	for i := 0; i <= out.mm.Step; i++ {
 		hasGC = hasGC || steps[i].Op == "gc"
 		hasLate = hasLate || lateOps[steps[i].Op]
+	}
+	if out.mm.Kind == "collect" {
+		res.Owner = "C18"
+		return res
 	}
 	if hasGC && out.mm.Kind != "files" {
 		o2 := r.run(steps, func(s step) bool { return s.Op == "gc" }, out.mm.Step)
